@@ -46,7 +46,7 @@ def main(tier):
         if not res1.violation:
             raise vlib.Inconclusive("selftest: the model in which the caller-side refresh keeps the session's read lock should get stuck but does not")
         trace = os.path.join(wd, "trace.ndjson")
-        rounds = 60 if not run.thorough else 1500
+        rounds = 60 if not run.thorough else 1000     # (1500 before the clock-behind rounds grew: the same half hour)
         lines, races_all = [], []
         # phase "use": no concurrent Destroy; phase "destroy": one goroutine destroys the client while the others use it
         for phase, n, extra in (("use", rounds, []), ("destroy", max(10, rounds // 5), ["-destroy"]), ("stress", 3 if not run.thorough else 60, ["-stress"])):
